@@ -248,6 +248,15 @@ func (x *Exec) callWrites(c *ssa.CallCommon, li *loopInfo) {
 	key, fc := x.calleeContract(c)
 	if fc == nil {
 		switch key {
+		case "sort.Slice", "sort.SliceStable":
+			if mi, ok := c.Args[0].(*ssa.MakeInterface); ok {
+				if sl, ok := mi.X.Type().Underlying().(*types.Slice); ok {
+					for _, lf := range leavesOf(sl.Elem()) {
+						li.heap[sliceKey(sl.Elem(), lf.Path)] = true
+					}
+				}
+			}
+			return
 		case "net/http.(Header).Set", "net/http.(Header).Add", "net/http.(Header).Del":
 			// modelled as map writes on the receiver (plus fresh value slices)
 			li.mapOps = append(li.mapOps, mapOp{c.Args[0], c.Args[0].Type().Underlying().(*types.Map)})
